@@ -214,13 +214,19 @@ func (vc *VC) call(ins ssa.Instruction, c *ssa.CallCommon, v *ssa.Call) {
 			cenv := vc.entryEnv()
 			cenv.heap = vc.heap
 			blk := v.Block()
+			lim := -1
+			for i, ins := range blk.Instrs {
+				if ins == ssa.Instruction(v) {
+					lim = i
+				}
+			}
 			base := cenv.resolve
 			h := vc.heap
 			cenv.resolve = func(name string) (Term, bool) {
 				if t, ok := env.vars[name]; ok { // callee parameter names denote the arguments
 					return t, true
 				}
-				if t, ok := vc.resolveLocal(name, blk, h, nil); ok {
+				if t, ok := vc.resolveLocalBefore(name, blk, lim, h, nil); ok {
 					return t, true
 				}
 				if base != nil {
@@ -230,7 +236,7 @@ func (vc *VC) call(ins ssa.Instruction, c *ssa.CallCommon, v *ssa.Call) {
 			}
 			// inside the body a parameter name denotes the current value of the variable
 			for _, p := range vc.fn.Params {
-				if t, ok := vc.resolveLocal(p.Name(), blk, h, nil); ok {
+				if t, ok := vc.resolveLocalBefore(p.Name(), blk, lim, h, nil); ok {
 					cenv.vars[p.Name()] = t
 				}
 			}
